@@ -26,6 +26,8 @@ def expected(case):
         for m in sorted(model[n]['tests']):
             t = model[n]['tests'][m]
             tagged = model[n]['class_tagged'] or t['tagged']
+            if not k_matches(sel.get('k'), n, m, sel.get('module', '__main__')):
+                continue                    # unittest's -k keeps only tests whose full name matches a pattern
             order.append((n, m, tagged, t['fails']))
     if sel['mode'] == 'list':
         listing = set(n for (n, m, tagged, f) in order if tagged)
@@ -42,3 +44,18 @@ def expected(case):
                 break
     # an empty run exits with 5 on Python 3.12+ and 0 before: not part of the property
     return {'executed': executed, 'listing': None, 'status': (1 if failed else 0) if executed else None}
+
+
+def k_matches(patterns, cls, method, module='__main__'):
+    """unittest's documented -k rule: a pattern without '*' is a substring test, otherwise an fnmatch (case
+    sensitive) against the full test name module.Class.method; several -k are alternatives."""
+    if not patterns:
+        return True
+    import fnmatch
+    full = '%s.%s.%s' % (module, cls, method)
+    for p in patterns:
+        if '*' not in p:
+            p = '*%s*' % p
+        if fnmatch.fnmatchcase(full, p):
+            return True
+    return False
